@@ -614,6 +614,19 @@ func mergedCatalogue(doc string, sp mechSpec, override map[string]any) (string, 
 			cfg = map[string]any{}
 		}
 		for k, v := range override {
+			if vals, isMap := v.(map[string]any); isMap && k == "values" {
+				merged := map[string]any{}
+				if cur, ok := cfg[k].(map[string]any); ok {
+					for n, x := range cur {
+						merged[n] = x
+					}
+				}
+				for n, x := range vals {
+					merged[n] = x
+				}
+				cfg[k] = merged
+				continue
+			}
 			cfg[k] = v
 		}
 		m["config"] = cfg
@@ -890,10 +903,15 @@ func c17Sim(r *simcore.Run) {
 			keys = append(keys, k)
 			switch v.(type) {
 			case string, bool:
+				if !plain[k] {
+					ok = false
+				}
+			case map[string]any:
+				// values: documented to be merged name by name, the rule's value winning
+				if k != "values" {
+					ok = false
+				}
 			default:
-				ok = false
-			}
-			if !plain[k] {
 				ok = false
 			}
 		}
